@@ -32,10 +32,11 @@ Class(on, od, ba, sk, fl, cd, optin) ==
        <<"z", <<"str">>, <<"val", S("s")>>, <<>> >>,
        <<"w", <<"opt", <<"str">> >>, <<"val", S("dw")>>, <<>> >>,
        <<"n", NN(optin), <<"fac", <<"obj", "N", <<None, I(1)>> >> >>, <<>> >>,
-       <<"m", <<"int">>, <<"val", I(0)>>, << <<"ser", "omit">> >> >> >>,
+       <<"m", <<"int">>, <<"val", I(0)>>, << <<"ser", "omit">> >> >>,
+       <<"u", <<"opt", <<"int">> >>, <<"val", I(0)>>, <<>> >> >>,                  \* nullable with a FALSY non-None default
     OptIf("omit_none", on) \o OptIf("omit_default", od) \o OptIf("serialize_by_alias", ba)
       \o << <<"aliases", << <<"z", "zz">> >> >> >>
-      \o (IF sk THEN << <<"sort_keys", TRUE>>, <<"sorted_idx", <<6, 5, 4, 1, 2, 3>> >> >> ELSE <<>>)
+      \o (IF sk THEN << <<"sort_keys", TRUE>>, <<"sorted_idx", <<6, 5, 7, 4, 1, 2, 3>> >> >> ELSE <<>>)
       \o (IF fl # {} THEN << <<"flags", fl>> >> ELSE <<>>)
       \o (IF cd # <<>> THEN << <<"dialect", cd>> >> ELSE <<>>) >>
 
@@ -48,9 +49,9 @@ TupInstances == { <<"obj", "C", << <<"tuple", << <<"text", "posixpath", "/abs/q"
 Classes == { TupClass(od) : od \in Tri } \cup { Class(on, od, ba, sk, fl, cd, oi) : on \in Tri, od \in Tri, ba \in Tri, sk \in BOOLEAN,
                                                   fl \in SUBSET AllFlags, cd \in CfgDialects, oi \in BOOLEAN }
 
-Instances == { <<"obj", "C", <<None, I(5), S("s"), S("dw"), <<"obj", "N", <<None, I(1)>> >>, I(0)>> >>,
-               <<"obj", "C", <<I(3), I(6), S("t"), None, <<"obj", "N", <<I(4), I(2)>> >>, I(9)>> >>,
-               <<"obj", "C", <<None, I(6), S("s"), None, <<"obj", "N", <<None, I(2)>> >>, I(0)>> >> }
+Instances == { <<"obj", "C", <<None, I(5), S("s"), S("dw"), <<"obj", "N", <<None, I(1)>> >>, I(0), I(0)>> >>,
+               <<"obj", "C", <<I(3), I(6), S("t"), None, <<"obj", "N", <<I(4), I(2)>> >>, I(9), None>> >>,
+               <<"obj", "C", <<None, I(6), S("s"), None, <<"obj", "N", <<None, I(2)>> >>, I(0), I(8)>> >> }
 
 \* keyword arguments exist only where the class enabled the flag
 Calls(C) == { <<kon, kba, kd>> \in Tri \X Tri \X CallDialects :
